@@ -245,6 +245,13 @@ func (w *world) produce(p *node) *proposal {
 	if e := lib.Unmarshal(blockBz, blk); e != nil {
 		w.c.Harnessf("unmarshal own proposal: %v", e)
 	}
+	// a correct proposer has executed every transaction of its block successfully: none of them may be one
+	// that must fail (whether or not the replicas would later catch it)
+	for _, tx := range blk.Transactions {
+		if why, bad := w.mustFail[string(tx)]; bad {
+			w.c.ReportFor(why[:3], "must-fail-transaction-executed", why[4:], fmt.Sprintf("%s, a correct proposer, executed successfully and put into its block for height %d %s", p.name, blk.BlockHeader.Height, w.describeBad(tx, why[4:])))
+		}
+	}
 	return &proposal{proposer: p.idx, rc: rc, blockBz: blockBz, block: blk, results: results, evidence: ev}
 }
 
